@@ -4,6 +4,7 @@ import (
 	"bytes"
 	"crypto/ecdsa"
 	"crypto/ed25519"
+	"crypto/elliptic"
 	"crypto/rand"
 	"crypto/rsa"
 	"math/big"
@@ -193,10 +194,11 @@ func gen(r *hx.Rng, n int, tier string) []string {
 	for _, c := range cfgs {
 		byScheme[c.scheme] = append(byScheme[c.scheme], c)
 	}
+	zeroDirected := 0
 	for i := 0; len(out) < n; i++ {
 		c := cfgs[i%len(cfgs)]
 		round := i / len(cfgs)
-		if round >= 2 {
+		if round >= 2 && !(round == 2 && (c.scheme == "pkcs1" || c.scheme == "pss") && c.bits == 2048 && zeroDirected < 12) {
 			// weighted: the encodings of ECDSA carry most of the property
 			sch := hx.PickS(r, []string{"ecdsa", "ecdsa", "ecdsa", "ecdsa", "ecdsa", "ecdsa", "ed25519", "pkcs1", "pss", "pss"})
 			c = hx.PickS(r, byScheme[sch])
@@ -206,6 +208,10 @@ func gen(r *hx.Rng, n int, tier string) []string {
 			out = append(out, x.vcase(c, "ok:tink"))
 		case round == 1:
 			out = append(out, x.scase(c))
+		case round == 2 && (c.scheme == "pkcs1" || c.scheme == "pss") && c.bits == 2048 && zeroDirected < 12:
+			// directed: zero-stripped genuine signatures (the fixed-length rule), a dozen per run
+			zeroDirected++
+			out = append(out, x.vcase(c, "zero"))
 		default:
 			switch r.Intn(12) {
 			case 0:
@@ -589,6 +595,10 @@ func (x *g) vcase(c config, force string) string {
 		return vcase{s, pub, nil, msg, "any:sign-failed"}.line()
 	}
 	v := vcase{s, pub, sig, msg, "ok:tink"}
+	zero := force == "zero" // directed: the zero-stripped form of a genuine RSA signature
+	if zero {
+		force = ""
+	}
 	if force != "" {
 		v.label = force
 		return v.line()
@@ -600,7 +610,11 @@ func (x *g) vcase(c config, force string) string {
 		return v.line()
 	}
 	// generic manipulations: prefix, message, key, variant
-	switch k := r.Intn(30); {
+	gk := r.Intn(30)
+	if zero {
+		gk = 29
+	}
+	switch k := gk; {
 	case k == 0:
 		return v.line()
 	case k == 1:
@@ -680,6 +694,35 @@ func (x *g) vcase(c config, force string) string {
 		return withBody(nil, "bad:prefix-only")
 	case k == 13:
 		return withBody(r.Bytes(len(body)), "bad:random-body")
+	case (k == 16 || k == 17) && s.scheme == "ecdsa":
+		// ECDSA public-key recovery: the key p' = r^-1 (s R - z' G), computed from the genuine
+		// signature (r, s) and the digest z' of ANY message, verifies that signature for that
+		// message.  "Rejected under other keys" is false for such keys (theorem
+		// C03_ecdsa_other_key_rejected_refuted); tink-go, the model and the independent
+		// verifier must all ACCEPT.
+		ec, _ := stdCurve(s.curve)
+		var a, b *big.Int
+		if s.enc == "der" {
+			var ok bool
+			if a, b, ok = derParseSig(body); !ok {
+				return v.line()
+			}
+		} else {
+			w := len(body) / 2
+			a, b = new(big.Int).SetBytes(body[:w]), new(big.Int).SetBytes(body[w:])
+		}
+		m2, label := bytes.Clone(msg), "ok:recovered-key-same-msg"
+		if k == 17 {
+			m2, label = append(r.Bytes(1+r.Intn(20)), 0x5a), "ok:recovered-key-other-msg"
+		}
+		md := m2
+		if s.variant == "L" {
+			md = append(bytes.Clone(m2), 0)
+		}
+		if p2 := recoverECDSAKey(ec, digestOf(s.hash, md), a, b, r.Bool()); p2 != nil && !bytes.Equal(p2, pub) {
+			v.pub, v.msg, v.label = p2, m2, label
+		}
+		return v.line()
 	case k == 14 || k == 15:
 		// signed by the standard library (not by tink-go), encoded by the harness
 		if b := x.stdSign(c, s, priv, msg); b != nil {
@@ -746,21 +789,25 @@ func (x *g) vcase(c config, force string) string {
 		if s.variant == "L" {
 			m = append(bytes.Clone(msg), 0)
 		}
-		if s.scheme == "pkcs1" && s.variant != "L" && r.Intn(8) == 0 {
+		if s.scheme == "pkcs1" && (zero || (s.variant != "L" && r.Intn(8) == 0)) {
 			// a genuine signature whose value starts with a zero byte, presented with that
 			// byte removed (PKCS1 v1.5 signatures are deterministic: search the message)
 			std := rk.std(65537)
 			base := append(bytes.Clone(msg), 0, 0)
 			for t := 0; t < 4000; t++ {
 				base[len(base)-2], base[len(base)-1] = byte(t>>8), byte(t)
-				sg, err := rsa.SignPKCS1v15(nil, std, cryptoHash(s.hash), digestOf(s.hash, base))
+				signed := base
+				if s.variant == "L" {
+					signed = append(bytes.Clone(base), 0)
+				}
+				sg, err := rsa.SignPKCS1v15(nil, std, cryptoHash(s.hash), digestOf(s.hash, signed))
 				if err == nil && sg[0] == 0 {
 					v.msg = bytes.Clone(base)
 					return withBody(sg[1:], "bad:lead-zero-stripped")
 				}
 			}
 		}
-		if s.scheme == "pss" && s.salt > 0 && r.Intn(24) == 0 {
+		if s.scheme == "pss" && s.salt > 0 && (zero || r.Intn(24) == 0) {
 			// the same for PSS (randomized: search over fresh signatures of the same message)
 			std := rk.std(65537)
 			for t := 0; t < 1500; t++ {
@@ -829,4 +876,60 @@ func (x *g) vcase(c config, force string) string {
 		return v.line()
 	}
 	return v.line()
+}
+
+// recoverECDSAKey returns the uncompressed public key r^-1 (s R - z G) for the point R with
+// abscissa r (odd selects which of the two), z = the digest truncated as crypto/ecdsa does;
+// nil when r is not an abscissa or the result is the point at infinity.  Standard library only.
+func recoverECDSAKey(c elliptic.Curve, digest []byte, r, s *big.Int, odd bool) []byte {
+	pr := c.Params()
+	if r.Sign() <= 0 || s.Sign() <= 0 || r.Cmp(pr.N) >= 0 || s.Cmp(pr.N) >= 0 {
+		return nil
+	}
+	// y^2 = x^3 - 3x + b
+	x := new(big.Int).Set(r)
+	y2 := new(big.Int).Exp(x, big.NewInt(3), pr.P)
+	y2.Sub(y2, new(big.Int).Mul(big.NewInt(3), x))
+	y2.Add(y2, pr.B)
+	y2.Mod(y2, pr.P)
+	y := new(big.Int).ModSqrt(y2, pr.P)
+	if y == nil {
+		return nil
+	}
+	if (y.Bit(0) == 1) != odd {
+		y.Sub(pr.P, y)
+	}
+	// z: leftmost orderBits of the digest
+	ob := pr.N.BitLen()
+	d := digest
+	if len(d) > (ob+7)/8 {
+		d = d[:(ob+7)/8]
+	}
+	z := new(big.Int).SetBytes(d)
+	if ex := len(d)*8 - ob; ex > 0 {
+		z.Rsh(z, uint(ex))
+	}
+	z.Mod(z, pr.N)
+	sx, sy := c.ScalarMult(x, y, s.Bytes())
+	nz := new(big.Int).Sub(pr.N, z)
+	nz.Mod(nz, pr.N)
+	tx, ty := sx, sy
+	if nz.Sign() != 0 {
+		gx, gy := c.ScalarBaseMult(nz.Bytes())
+		tx, ty = c.Add(sx, sy, gx, gy)
+	}
+	if tx.Sign() == 0 && ty.Sign() == 0 {
+		return nil
+	}
+	rinv := new(big.Int).ModInverse(r, pr.N)
+	qx, qy := c.ScalarMult(tx, ty, rinv.Bytes())
+	if qx.Sign() == 0 && qy.Sign() == 0 {
+		return nil
+	}
+	w := (pr.BitSize + 7) / 8
+	out := make([]byte, 1+2*w)
+	out[0] = 4
+	qx.FillBytes(out[1 : 1+w])
+	qy.FillBytes(out[1+w:])
+	return out
 }
